@@ -386,6 +386,33 @@ pub fn degenerate_shape(spec: &LmSpec) -> &'static str {
     if spec.rows.iter().any(|r| r.coef.iter().all(|c| *c == 0.0)) {
         return "empty-row";
     }
+    // rank-deficient equality block
+    if eqs.len() >= 2 {
+        let mut m: Vec<Vec<f64>> = eqs.iter().map(|r| r.coef.clone()).collect();
+        let mut rank = 0;
+        let ncol = spec.vars.len();
+        for col in 0..ncol {
+            if let Some(p) = (rank..m.len()).find(|&r| m[r][col] != 0.0) {
+                m.swap(rank, p);
+                for r in 0..m.len() {
+                    if r != rank && m[r][col] != 0.0 {
+                        let f = m[r][col] / m[rank][col];
+                        for c in 0..ncol {
+                            m[r][c] -= f * m[rank][c];
+                        }
+                    }
+                }
+                rank += 1;
+            }
+        }
+        if rank < eqs.len() {
+            return "dependent-equalities";
+        }
+    }
+    let free = spec.vars.iter().any(|v| v.1.bounds() == (f64::NEG_INFINITY, f64::INFINITY));
+    if !eqs.is_empty() && free {
+        return "equality-rows+free-variables";
+    }
     "regular"
 }
 
